@@ -22,6 +22,10 @@ def trio_sleep(I, args, kwargs):
         for f in ENV_FIELDS:
             ctx.heap[f] = fresh("H_%s" % f, ctx.field_array(f).sort())
         ctx.ghost["nondet"] = True
+        envinv = ctx.ghost.get("env_invariant")
+        if envinv is not None:
+            # hypothesis about what the environment does while the task sleeps (stated by the contract under verification)
+            ctx.assume(envinv(ctx))
         now = ctx.ghost.get("now", z3.RealVal(0))
         ctx.ghost["now"] = now + Z.rval(sv.t)
         if ctx.choose(2, "trio.sleep-outcome") == 1:
